@@ -50,6 +50,9 @@ type Opts struct {
 	// Async: ReplicationMode = asynchronous. The replication goroutines a Put starts are queued and
 	// run when the engine calls DeliverAsync (sequential engines only).
 	Async bool
+	// HoldGo: goroutines started on the client operation paths (rewritten `go` statements of
+	// internal/dmap/put.go and get.go) are queued until DeliverAsync instead of running on their own.
+	HoldGo bool
 }
 
 func (o Opts) withDefaults() Opts {
@@ -124,7 +127,7 @@ func New(o Opts) *Cluster {
 	simnet.Reset()
 	c := &Cluster{O: o}
 	vsync.Spawn = nil
-	if o.Async {
+	if o.Async || o.HoldGo {
 		vsync.Spawn = func(f func()) { c.pending = append(c.pending, f) }
 	}
 	for i := 0; i < o.N; i++ {
